@@ -5,6 +5,9 @@ use serde::Deserialize;
 use std::path::Path;
 
 pub mod c01;
+pub mod c02;
+pub mod c03;
+pub mod c04;
 
 pub struct PropDef {
 	pub id: &'static str,
@@ -30,7 +33,7 @@ pub fn default_watchdog(tier: &str) -> u64 {
 }
 
 pub fn all() -> Vec<PropDef> {
-	vec![c01::def()]
+	vec![c01::def(), c02::def(), c03::def(), c04::def()]
 }
 
 #[derive(Clone, Debug, Deserialize)]
